@@ -16,9 +16,9 @@
 (* independent of its source.  Invariant: every triple is a valid           *)
 (* representation of a curve point.                                         *)
 (***************************************************************************)
-EXTENDS Toy, TLC
+EXTENDS ToyCodec, TLC
 
-CONSTANTS NEl, NSc, MaxCalls, ScalarConsts, BaseX, BaseY
+CONSTANTS NEl, NSc, MaxCalls, ScalarConsts, BaseX, BaseY, DecodeInputs
 
 VARIABLES H, K,          \* implementation state: projective triples, scalars mod NOrd
           last,          \* the call just made: << name, receiver, argument >>
@@ -48,12 +48,17 @@ OutNone(x) == [panic |-> TRUE, v |-> 0, used |-> 0]
 Abs == INSTANCE SecpAbs WITH
   NE <- NEl, NS <- NSc, E <- Ebar, S <- K,
   Inf <- TC!Inf, BaseG <- TC!Pt(BaseX, BaseY), Neg <- TC!Neg, IsSum <- TC!IsSum, IsMul <- IsMulT,
-  PEncode <- NoOp1, PEncodeUnc <- NoOp1, PXCoord <- NoOp1, PHex <- NoOp1,
-  PDecode <- Rej2, PDecodeCompressed <- Rej2, PDecodeUncompressed <- Rej1, PDecodeCoords <- Rej2, PDecodeHex <- Rej2,
+  PEncode <- Sec!Encode, PEncodeUnc <- Sec!EncodeUncompressed, PXCoord <- Sec!XCoordinate, PHex <- NoOp1,
+  PDecode <- Sec!Decode, PDecodeCompressed <- Sec!DecodeCompressed, PDecodeUncompressed <- Sec!DecodeUncompressed,
+  PDecodeCoords <- Sec!DecodeCoordinates, PDecodeHex <- Rej2,
   RZero <- 0, ROne <- 1, RMinusOne <- NOrd - 1, RAdd <- RAddT, RSub <- RSubT, RMul <- RMulT,
   RIsInverse <- RInvT, RPow <- NoOp2, RLessOrEqual <- RLeT, RBits <- NoOp1,
   REncode <- NoOp1, RHex <- NoOp1, RDecode <- DecNone, RDecodeHex <- DecNone, ROfU64 <- NoOp1,
   IsHashToGroup <- False4, IsEncodeToGroup <- False4, HashToScalarOf <- NoOp2, RandomOutcome <- OutNone
+
+\* byte strings fed to the decoders besides round trips: identity, wrong prefixes, x >= q, off-curve x, bad lengths
+DecodeInputsDef == << << 0 >>, << 1 >>, << 2, 2 >>, << 3, 2 >>, << 2, 45 >>, << 2, 1 >>, << 5, 2 >>, << 4, 2, 12 >>, << 4, 2, 13 >>,
+                      << 4, 45, 12 >>, << 4, 2, 55 >>, << >>, << 2, 2, 12, 1 >> >>
 
 RECURSIVE P2(_)
 P2(i) == IF i = 0 THEN 1 ELSE 2 * P2(i - 1)
@@ -76,7 +81,24 @@ Next ==
   \/ \E r \in EI : Call("EDouble", r, 0, [H EXCEPT ![r] = Impl!RCBDbl(H[r])], K)
   \/ \E r \in EI : Call("ENegate", r, 0, [H EXCEPT ![r] = Impl!NegImpl(H[r])], K)
   \/ \E r \in EI, s \in SI : Call("EMul", r, s, [H EXCEPT ![r] = Impl!LadderImpl(H[r], BitsOf(K[s]), K[s] = 1)], K)
+  \/ \E r, a \in EI : Call("ECopy", r, a, [H EXCEPT ![r] = H[a]], K)
+  \/ \E r \in EI : Call("EAddNil", r, 0, H, K)
+  \/ \E r \in EI : Call("ESubNil", r, 0, H, K)
+  \/ \E r \in EI : Call("EMulNil", r, 0, [H EXCEPT ![r] = << 0, 1, 0 >>], K)
+  \* decoding: the encoding of another variable (round trip), or one of the fixed byte strings (mostly invalid)
+  \/ \E r, a \in EI : LET bs == EncodeImpl(H[a])  d == ImplDecode(bs)
+                       IN  Call("EDecodeEnc", r, a, [H EXCEPT ![r] = IF d.res = "accept" THEN RepOfDecoded(d) ELSE H[r]], K)
+  \/ \E r, a \in EI : LET bs == EncodeUncImpl(H[a])  d == ImplDecode(bs)
+                       IN  Call("EDecodeUnc", r, a, [H EXCEPT ![r] = IF d.res = "accept" THEN RepOfDecoded(d) ELSE H[r]], K)
+  \/ \E r \in EI, i \in 1..Len(DecodeInputs) :
+        LET d == ImplDecode(DecodeInputs[i])
+        IN  Call("EDecodeFixed", r, i, [H EXCEPT ![r] = IF d.res = "accept" THEN RepOfDecoded(d) ELSE H[r]], K)
   \/ \E r \in SI, c \in ScalarConsts : Call("SSetC", r, c, H, [K EXCEPT ![r] = c])
+  \/ \E r, a \in SI : Call("SSub", r, a, H, [K EXCEPT ![r] = (K[r] - K[a] + NOrd) % NOrd])
+  \/ \E r \in SI : Call("SSquare", r, 0, H, [K EXCEPT ![r] = (K[r] * K[r]) % NOrd])
+  \/ \E r \in SI : Call("SInvert", r, 0, H, [K EXCEPT ![r] = IF K[r] = 0 THEN 0 ELSE CHOOSE x \in 1..(NOrd - 1) : (x * K[r]) % NOrd = 1])
+  \/ \E r, a \in SI : Call("SSet", r, a, H, [K EXCEPT ![r] = K[a]])
+  \/ \E r, a \in SI, c \in {0, 1, 2} : Call("SCSelect", r, << c, a >>, H, [K EXCEPT ![r] = IF c = 0 THEN K[r] ELSE K[a]])
   \/ \E r, a \in SI : Call("SAdd", r, a, H, [K EXCEPT ![r] = (K[r] + K[a]) % NOrd])
   \/ \E r, a \in SI : Call("SMul", r, a, H, [K EXCEPT ![r] = (K[r] * K[a]) % NOrd])
 
@@ -93,7 +115,21 @@ StepRefines ==
         [] n = "EDouble"   -> Abs!EDouble(r)
         [] n = "ENegate"   -> Abs!ENegate(r)
         [] n = "EMul"      -> Abs!EMultiply(r, a)
+        [] n = "ECopy"     -> Abs!ECopy(r, a)
+        [] n = "EAddNil"   -> Abs!EAddNil(r)
+        [] n = "ESubNil"   -> Abs!ESubtractNil(r)
+        [] n = "EMulNil"   -> Abs!EMultiplyNil(r)
+        \* the abstract decoder is given the witness the relation needs (TLC finds it); the error flag is what
+        \* the implementation-shaped decoder reported
+        [] n = "EDecodeEnc" -> \E w \in Fq : Abs!EDecode(r, Sec!Encode(Ebar[a]), w, IF ImplDecode(EncodeImpl(H[a])).res = "accept" THEN 0 ELSE 1)
+        [] n = "EDecodeUnc" -> \E w \in Fq : Abs!EDecode(r, Sec!EncodeUncompressed(Ebar[a]), w, IF ImplDecode(EncodeUncImpl(H[a])).res = "accept" THEN 0 ELSE 1)
+        [] n = "EDecodeFixed" -> \E w \in Fq : Abs!EDecode(r, DecodeInputs[a], w, IF ImplDecode(DecodeInputs[a]).res = "accept" THEN 0 ELSE 1)
         [] n = "SSetC"     -> K'[r] = a /\ Abs!OnlyS(r)
+        [] n = "SSub"      -> Abs!SSubtract(r, a)
+        [] n = "SSquare"   -> Abs!SSquare(r)
+        [] n = "SInvert"   -> Abs!SInvert(r)
+        [] n = "SSet"      -> Abs!SSet(r, a)
+        [] n = "SCSelect"  -> Abs!SCSelect(r, a[1] = 0, r, a[2], 0)
         [] n = "SAdd"      -> Abs!SAdd(r, a)
         [] n = "SMul"      -> Abs!SMultiply(r, a)
 Refinement == [][StepRefines]_vars
@@ -102,5 +138,7 @@ AllValid == \A v \in EI : ValidRep(H[v])
 \* what Equal / IsIdentity / Encode would report agrees with the abstract state
 ObserversAgree == \A v, w \in EI : /\ Impl!EqualImpl(H[v], H[w]) = (IF Ebar[v] = Ebar[w] THEN 1 ELSE 0)
                                    /\ Impl!IsIdentityImpl(H[v]) = Ebar[v].inf
+                                   /\ EncodeImpl(H[v]) = Sec!Encode(Ebar[v])
+                                   /\ EncodeUncImpl(H[v]) = Sec!EncodeUncompressed(Ebar[v])
 StateView == << H, K, calls >>
 =============================================================================
